@@ -6,6 +6,7 @@ mod model;
 mod observe;
 mod project;
 mod reads;
+mod roundtrip;
 
 use apply::*;
 use concretise::IdStyle;
@@ -15,7 +16,7 @@ use std::panic::{catch_unwind, AssertUnwindSafe};
 
 /// Performance-only settings come from the environment: the specification has no configuration variable,
 /// so one specification must accept the traces of every configuration (C12).
-fn store_config() -> (stam::Config, serde_json::Value) {
+pub fn store_config() -> (stam::Config, serde_json::Value) {
     let mut cfg = stam::Config::default();
     let ms: Option<usize> = std::env::var("VERIF_MILESTONE").ok().and_then(|s| s.parse().ok());
     if let Some(ms) = ms {
@@ -31,7 +32,16 @@ fn new_store() -> stam::AnnotationStore {
 }
 
 fn reset_event(cfg: &serde_json::Value) -> Event {
-    Event { ev: "Reset".into(), a: cfg.clone(), outcome: "ok".into(), res: 0, projok: true, api: serde_json::json!({"has": false}), ..Default::default() }
+    Event {
+        ev: "Reset".into(),
+        a: cfg.clone(),
+        outcome: "ok".into(),
+        res: 0,
+        projok: true,
+        api: serde_json::json!({"has": false}),
+        x: serde_json::json!({"has": false}),
+        ..Default::default()
+    }
 }
 
 /// Replay behaviours (one JSON array of {ev,a} per input line) on fresh stores and log every step.
@@ -47,7 +57,7 @@ fn replay(input: &str, output: &str, style: IdStyle) -> std::io::Result<()> {
             continue;
         }
         let ops: Vec<Op> = serde_json::from_str(line).expect("harness: behaviour line");
-        let mut ctx = Ctx { store: new_store(), style };
+        let mut ctx = Ctx { store: new_store(), style, extra: serde_json::json!({"has": false}), dir: None };
         let mut rcfg = store_config().1;
         rcfg["style"] = serde_json::json!(style.0);
         serde_json::to_writer(&mut out, &reset_event(&rcfg))?;
@@ -57,12 +67,13 @@ fn replay(input: &str, output: &str, style: IdStyle) -> std::io::Result<()> {
         for op in ops.iter() {
             if reads::READ_EVENTS.contains(&op.ev.as_str()) {
                 let (outcome, res, api) = reads::read(&ctx, op);
-                let ev = Event { ev: op.ev.clone(), a: op.a.clone(), outcome, res, projok: true, api, ..Default::default() };
+                let ev = Event { ev: op.ev.clone(), a: op.a.clone(), outcome, res, projok: true, api, x: serde_json::json!({"has": false}), ..Default::default() };
                 serde_json::to_writer(&mut out, &ev)?;
                 out.write_all(b"\n")?;
                 nev += 1;
                 continue;
             }
+            ctx.extra = serde_json::json!({"has": false});
             let (outcome, res) = apply(&mut ctx, op);
             let proj = catch_unwind(AssertUnwindSafe(|| project::project(&ctx.store, style)));
             let (projok, post, pos) = match proj {
@@ -83,12 +94,17 @@ fn replay(input: &str, output: &str, style: IdStyle) -> std::io::Result<()> {
             } else {
                 serde_json::json!({"has": false})
             };
-            let ev = Event { ev: op.ev.clone(), a: op.a.clone(), outcome: outcome.clone(), res, projok, post, pos, api };
+            let ev = Event { ev: op.ev.clone(), a: op.a.clone(), outcome: outcome.clone(), res, projok, post, pos, api, x: ctx.extra.clone() };
             serde_json::to_writer(&mut out, &ev)?;
             out.write_all(b"\n")?;
             nev += 1;
             if outcome == "panic" || !projok {
                 break; // the store may be inconsistent after a panic: end this behaviour
+            }
+        }
+        if let Some(d) = ctx.dir.take() {
+            if std::env::var("VERIF_KEEP_TMP").is_err() {
+                let _ = std::fs::remove_dir_all(&d);
             }
         }
     }
